@@ -327,6 +327,8 @@ impl RoomAuthorisations {
             // [removal_records_in_row_room]{C01,C09} one reference-removal record per removed reference, each for the row's room
             r is Ok && old(entity_to_mutate).node_to_mutate.entity@ != system_entities::ROOM_ENT@
                 ==> logs_in_room(*final(entity_to_mutate), old(entity_to_mutate).edge_deletions_log@.len() as int),
+            // [entity_kind_unchanged_by_validation] validation never turns an entity into another kind
+            final(entity_to_mutate).node_to_mutate.entity == old(entity_to_mutate).node_to_mutate.entity,
 //@ end
 
 pub closed spec fn is_system_entity(e: Seq<char>) -> bool {
@@ -419,6 +421,97 @@ pub closed spec fn deletion_ok(ra: RoomAuthorisations, old_q: DeletionQuery, new
             final(deletion_query).nodes == old(deletion_query).nodes && final(deletion_query).edges == old(deletion_query).edges,
 //@ end
 
+// ================================================================= the shell around the local verdicts and the hand-over to the writer (C01)
+pub struct MutationParser { x: u8 }
+//@ extract src/database/mutation_query.rs :: struct MutationQuery
+//@ rewrite E3 "Arc<MutationParser>" => "Box<MutationParser>" x1
+//@ end
+impl MutationQuery {
+    /// signs every row and reference of the mutation with the caller's key (Node::sign / Edge::sign are under contract in u4_digests)
+    #[verifier::external_body]
+    pub fn sign_all(&mut self, signing_key: &Ed25519SigningKey) -> (r: Result<()>) { unimplemented!() }
+}
+/// what validate_entity_mutation establishes for one top-level entity of a mutation, as it goes on to the writer
+pub open spec fn entity_validated(ra: RoomAuthorisations, e: InsertEntity) -> bool {
+    !is_auth_entity(e.node_to_mutate.entity@)
+    && (e.node_to_mutate.entity@ != system_entities::ROOM_ENT@ ==> spec_local_row_ok(ra, e.node_to_mutate, vk_of(ra)))
+}
+pub open spec fn mutation_validated(ra: RoomAuthorisations, mq: MutationQuery) -> bool {
+    forall|i: int| 0 <= i < mq.mutate_entities@.len() ==> entity_validated(ra, #[trigger] mq.mutate_entities@[i])
+}
+
+//@ extract src/database/authorisation_service.rs :: impl RoomAuthorisations / fn validate_mutation
+//@ result r
+//@ attr #[verifier::loop_isolation(false)]
+//@ rewrite E17 "(?<=for insert_entity in )&mut mutation_query\.mutate_entities(?= \{)" => "mutation_query.mutate_entities.iter_mut()" x1
+//@ loop "for insert_entity in" iter it
+            invariant
+                *self == *old(self), verifying_key == vk_of(*self),
+                forall|i: int| 0 <= i < it.index@ ==> entity_validated(*self, *final(#[trigger] it.seq()[i])),
+//@ insert after-stmt "let verifying_key = self.signing_key.export_verifying_key();"
+        proof { assert(verifying_key@ =~= vk_of(*self)@); }
+//@ spec
+        requires rooms_wf(*old(self)),
+        ensures
+            *final(self) == *old(self),
+            // [every_entity_of_an_accepted_mutation_was_validated]{C01} a mutation is accepted only if every one of its top-level entities passed validate_entity_mutation (no entity is skipped, the first refusal refuses the whole mutation); nested entities: see sub_entities_validated
+            r is Ok ==> mutation_validated(*old(self), *final(mutation_query)),
+//@ end
+
+pub struct SendErr { x: u8 }
+pub struct ReplySender<T> { x: Option<T> }
+impl<T> ReplySender<T> {
+    #[verifier::external_body]
+    pub fn send(self, t: T) -> (r: std::result::Result<(), SendErr>) { unimplemented!() }
+}
+pub struct AuthSender { x: u8 }
+impl AuthSender {
+    #[verifier::external_body]
+    pub fn clone(&self) -> (r: AuthSender) { unimplemented!() }
+}
+pub struct RoomMutationWriteQuery { pub room_list: HashSet<Uid>, pub mutation_query: MutationQuery, pub reply: ReplySender<Result<MutationQuery>> }
+pub enum WriteMessage {
+    Deletion(DeletionQuery, ReplySender<Result<DeletionQuery>>),
+    Mutation(MutationQuery, ReplySender<Result<MutationQuery>>),
+    RoomMutation(RoomMutationWriteQuery, AuthSender),
+}
+/// the batch writer: what it REQUIRES of a local write is the property's "refused operations change nothing" seen from the caller
+pub struct BufferedDatabaseWriter { x: u8 }
+pub open spec fn wm_deletion(m: WriteMessage) -> DeletionQuery { match m { WriteMessage::Deletion(q, _) => q, _ => arbitrary() } }
+pub open spec fn wm_query(m: WriteMessage) -> MutationQuery { match m { WriteMessage::Mutation(q, _) => q, WriteMessage::RoomMutation(q, _) => q.mutation_query, WriteMessage::Deletion(_, _) => arbitrary() } }
+// E8 cut: `for room in rooms { room_list.insert(room.id); }` (the ids of the rooms changed by the mutation)
+#[verifier::external_body]
+pub fn cut_collect_room_ids(room_list: &mut HashSet<Uid>, rooms: Vec<Room>) { unimplemented!() }
+impl BufferedDatabaseWriter {
+    #[verifier::external_body]
+    pub async fn send(&self, msg: WriteMessage) -> (r: std::result::Result<(), SendErr>) { unimplemented!() }
+}
+
+//@ extract src/database/authorisation_service.rs :: impl AuthorisationService / fn process_message as AuthorisationService::lifted_local_mutation
+//@ lift "AuthorisationMessage::Mutation(mut mutation_query, reply) =>" :: async fn lifted_local_mutation(mutation_query0: MutationQuery, reply: ReplySender<Result<MutationQuery>>, auth: &mut RoomAuthorisations, database_writer: &BufferedDatabaseWriter, self_sender: &AuthSender)
+//@ attr #[verifier::exec_allows_no_decreases_clause]
+//@ insert body-start
+                let mut mutation_query = mutation_query0;   // E9: `mut mutation_query` of the match arm
+//@ cut "for room in rooms" => "cut_collect_room_ids(&mut room_list, rooms);"
+//@ insert-each before-stmt "let _ = database_writer.send(query).await;"
+                            // [only_validated_mutations_reach_the_writer]{C01} a local mutation is handed to the writer only after validate_mutation accepted it, and it is the validated query that is handed over
+                            assert(mutation_validated(*auth, wm_query(query)));
+//@ spec
+        requires rooms_wf(*old(auth)),
+//@ end
+
+//@ extract src/database/authorisation_service.rs :: impl AuthorisationService / fn process_message as AuthorisationService::lifted_local_deletion
+//@ lift "AuthorisationMessage::Deletion(mut deletion_query, reply) =>" :: async fn lifted_local_deletion(deletion_query0: DeletionQuery, reply: ReplySender<Result<DeletionQuery>>, auth: &mut RoomAuthorisations, database_writer: &BufferedDatabaseWriter)
+//@ insert body-start
+                let mut deletion_query = deletion_query0;   // E9: `mut deletion_query` of the match arm
+                let ghost dq0 = deletion_query;
+//@ insert-each before-stmt "let _ = database_writer.send(query).await;"
+                        // [only_validated_deletions_reach_the_writer]{C01} a local deletion is handed to the writer only after validate_deletion accepted it, and it is the validated deletion that is handed over
+                        assert(exists|t: i64| deletion_ok(*auth, dq0, wm_deletion(query), t)) by { assert(wm_deletion(query) == deletion_query); }
+//@ spec
+        requires rooms_wf(*old(auth)),
+//@ end
+
 // ================================================================= C12: the two paths agree (a lemma over the two contracts)
 //@ obligation L_local_accept_implies_peer_accept props C12 : a data row accepted locally (validate_entity_mutation's postcondition) is accepted by validate_node on every peer holding the same room definitions, when the peer receives the row as written (same room, date = operation date, author = caller, same entity) and holds the same previous version
 pub proof fn L_local_accept_implies_peer_accept(ra: RoomAuthorisations, peer: RoomAuthorisations, t: NodeToMutate, n: NodeToInsert, caller: Vec<u8>)
@@ -464,6 +557,8 @@ impl Room {
 //@ spec
         requires rooms_wf(*self),
         ensures
+            // [room_entity_kind_unchanged_by_validation]
+            final(insert_entity).node_to_mutate.entity == old(insert_entity).node_to_mutate.entity,
             // [existing_room_changed_only_by_admin]{C01} a mutation of a room that already exists is accepted only if the caller is an admin of that room, as it is defined now, at the operation's date
             r is Ok && r->Ok_0 is Some && old(insert_entity).node_to_mutate.old_node is Some ==>
                 self.rooms@.contains_key(old(insert_entity).node_to_mutate.old_node->Some_0.id)
